@@ -661,7 +661,7 @@ Theorem switchover_disables_first cfg env sw mem tr o : runs (perform_switchover
   exists active tr1 tr2, tr = tr1 ++ tr2 /\ incl active (se_active env) /\
     Forall (fun e => disable_call (ev_call e)) tr1 /\
     (runs (opt_disable_all (se_old_master env) active) tr1 (Done None) \/
-     (tr2 = [] /\ exists o1, runs (opt_disable_all_k (mem_host (se_old_master env) (map fst (se_all_hosts env))) (se_old_master env) active) tr1 o1 /\ o1 <> Done None)).
+     (tr2 = [] /\ exists o1, runs (opt_disable_all_k (mem_host (se_old_master env) (map fst (se_all_hosts env)) && forallb (fun h => mem_host h (map fst (se_all_hosts env))) active) (se_old_master env) active) tr1 o1 /\ o1 <> Done None)).
 Proof.
   unfold perform_switchover.
   destruct (match sw_to sw with Some t => negb (mem_host t (se_active env)) | None => false end); [cbn; intros [-> _]; left; reflexivity|].
@@ -680,7 +680,7 @@ Proof.
     split; [exact (allcalls_sound _ _ (AC _) _ _ R1)|].
     destruct a as [x|].
     + right. cbn in R2. destruct R2 as [-> _]. split; [reflexivity|]. exists (Done (Some x)). split; [exact R1|discriminate].
-    + left. unfold opt_disable_all_k in R1. destruct (mem_host _ _); [exact R1|].
+    + left. unfold opt_disable_all_k in R1. destruct (mem_host _ _ && _); [exact R1|].
       exfalso. unfold dcs_children_ in R1. cbn [bind runs] in R1. destruct t1 as [|e t1']; [destruct R1|]. destruct R1 as (_ & _ & R1).
       destruct (ev_resp e); cbn in R1; destruct R1 as [_ R1]; discriminate R1.
   - exists active, tr, []. split; [rewrite app_nil_r; reflexivity|]. split; [exact Hincl|].
